@@ -121,6 +121,27 @@ PROPS["C14"] = {
     "explanation": "skip_one: Ok((slice,_)) ==> slice == data[p..e) with value_end == Some(e)",
 }
 
+K_NUMBER = [
+    K("parse_number_zero_sign", "every zero-valued literal of <= 8 bytes over {0 . e E + -}: Unsigned(0) or a float zero with the literal's sign; zero literals never reach parse_float",
+      ["sonic_number::parse_number"], package="sonic-number", kind="bounded(literal length <= 8)"),
+]
+
+PROPS["C07"] = {
+    "level": "proof",
+    "verus": [{"unit": "number", "rlimit": 400}],
+    "kani": K_STR2INT + K_NUMBER,
+    "trusted_base": [T5, T6, VSTD, KANI,
+                     "parse_float and everything below it (fast paths, Eisel-Lemire, big-decimal) is external_body: correct rounding is ASSUMED, not proved",
+                     "x86 simd_str2int contract assumed (only the fallback implementation is proved by Kani)",
+                     "u64::overflowing_mul/overflowing_add: standard semantics (assume_specification)",
+                     "input length <= 512 MiB in this unit (i32 exponent arithmetic `*index as i32` is only safe below 2 GiB: documented limitation, see DESIGN.md)",
+                     "typed integer targets / f32 narrowing happen in serde's primitive impls (T4)"],
+    "level_text": "Verus proof for all inputs that sonic_number::parse_number consumes exactly the number grammar (end offset exact, Err only for grammar failure or non-finite float), that every plain integer literal within u64 / i64 is returned as that exact integer with the right classification (incl. the 19/20-digit boundary and i64::MIN), that the fraction reader accumulates exactly the first digits, and that parse_exponent is exact; float rounding itself is assumed (T5)",
+    "level_note": "the exact-integer half and the scanners are proved; the correctly-rounded-float half is an assumption",
+    "technique": TECH_VK,
+    "explanation": "parse_number: lenient_end / is_plain_int / dec_val specs; parse_number_fraction: significand == old*10^k + digits",
+}
+
 PROPS["C12"] = {
     "level": "proof",
     "verus": [{"unit": "iterators", "rlimit": 200}],
